@@ -194,7 +194,7 @@ theorem newTW_trailer (r : Req) (t : TW) (h : newTW r = some t) :
     exact ite_none_or _ _
 
 theorem write_shape (r : Req) (bs : Bytes) (hw : writeRequest r = (true, bs)) :
-    ∃ t, newTW r = some t ∧ bs = joinLines (headLinesOf r t) ++ crlf ++ (twBody t).1 := by
+    ∃ t, newTW r = some t ∧ bs = joinLines (headLinesOf r t) ++ crlf ++ (twBody t).1 ∧ (twBody t).2 = true := by
   unfold writeRequest at hw
   simp only [] at hw
   cases hn : newTW r with
@@ -208,6 +208,7 @@ theorem write_shape (r : Req) (bs : Bytes) (hw : writeRequest r = (true, bs)) :
     | none =>
       rw [ht] at hw
       simp only [Prod.mk.injEq] at hw
+      refine ⟨?_, hw.1⟩
       rw [← hw.2]
       simp [joinLines, List.flatMap_append]
     | some ks =>
@@ -218,6 +219,7 @@ theorem write_shape (r : Req) (bs : Bytes) (hw : writeRequest r = (true, bs)) :
       | some l =>
         rw [hl] at hw
         simp only [Prod.mk.injEq] at hw
+        refine ⟨?_, hw.1⟩
         rw [← hw.2]
         simp [joinLines, List.flatMap_append, hl]
 
@@ -249,5 +251,68 @@ theorem tchar_ne_sp (b : UInt8) (h : isTchar b = true) : b ≠ 32 := by
 
 theorem targetByte_ne_sp (b : UInt8) (h : isTargetByte b = true) : b ≠ 32 := by
   intro e; subst e; revert h; decide
+
+end BfeVerif.C25
+
+namespace BfeVerif.C25
+
+/-- every head line is free of CR/LF and non-empty when the components that are written verbatim are -/
+theorem lines_clean_core (r : Req) (t : TW) (hmeth : NoBreak (effMethod r)) (hruri : NoBreak (ruri r))
+    (heff : NoBreak (effHost r)) (hk' : ∀ kv ∈ r.header, NoBreak kv.1)
+    (htr : (match r.trailer with
+      | some ks => ks.all fun s => s.all fun b => b != 13 && b != 10
+      | none => true) = true)
+    (hn : newTW r = some t) :
+    ∀ l ∈ headLinesOf r t, NoBreak l ∧ l ≠ [] := by
+  have nonempty_of_len : ∀ (l : Bytes), 0 < l.length → l ≠ [] := by
+    intro l h e; rw [e] at h; simp at h
+  intro l hl
+  unfold headLinesOf at hl
+  simp only [List.mem_append, List.mem_cons, List.not_mem_nil, or_false] at hl
+  rcases hl with ((hl | hl) | hl) | hl
+  · rcases hl with hl | hl
+    · subst hl
+      unfold requestLine
+      exact ⟨noBreak_append (noBreak_append (noBreak_append (noBreak_append hmeth (by decide)) hruri) (by decide)) (by decide),
+        nonempty_of_len _ (by simp [sHTTP11]; omega)⟩
+    · subst hl
+      exact ⟨noBreak_append (by decide) heff, nonempty_of_len _ (by simp [sHostPfx])⟩
+  · unfold twHeaderLines at hl
+    rcases List.mem_append.mp hl with hl | hl
+    · split at hl
+      · simp only [List.mem_cons, List.not_mem_nil, or_false] at hl
+        subst hl; exact ⟨by decide, by decide⟩
+      · cases hl
+    · split at hl
+      · simp only [List.mem_cons, List.not_mem_nil, or_false] at hl
+        subst hl
+        exact ⟨noBreak_append (by decide) (noBreak_toDec _), nonempty_of_len _ (by simp [sCLPfx])⟩
+      · split at hl
+        · simp only [List.mem_cons, List.not_mem_nil, or_false] at hl
+          subst hl; exact ⟨by decide, by decide⟩
+        · cases hl
+  · -- the Trailer line
+    rcases newTW_trailer r t hn with ht | ht
+    · rw [ht] at hl; cases hl
+    · rw [ht] at hl
+      cases hrt : r.trailer with
+      | none => rw [hrt] at hl; cases hl
+      | some ks =>
+        rw [hrt] at hl htr
+        simp only [] at hl
+        cases htl : trailerLine ks with
+        | none => rw [htl] at hl; cases hl
+        | some tl =>
+          rw [htl] at hl
+          simp only [List.mem_cons, List.not_mem_nil, or_false] at hl
+          subst hl
+          unfold trailerLine at htl
+          split at htl
+          · cases htl
+          · simp only [Option.some.injEq] at htl
+            subst htl
+            have hks : ∀ k ∈ ks, NoBreak k := fun k hk => noBreak_of_all (List.all_eq_true.mp htr k hk)
+            exact ⟨noBreak_append (by decide) (noBreak_joinComma ks hks), nonempty_of_len _ (by simp [sTrailerPfx])⟩
+  · exact subsetLines_ok r.header hk' l hl
 
 end BfeVerif.C25
